@@ -18,6 +18,14 @@ import jinja2  # noqa: E402
 from jinja2.sandbox import SandboxedEnvironment  # noqa: E402
 
 
+@jinja2.pass_environment
+def _finalize(env, value):
+    """A finalize callable shared by every environment that has one; its result depends on the environment."""
+    if isinstance(value, int) and not isinstance(value, bool):
+        return f"<{int(bool(env.autoescape))}{int(env.is_async)}:{value}>"
+    return value
+
+
 def make_env(cfg):
     cls = SandboxedEnvironment if cfg.get("sandboxed") else jinja2.Environment
     ext = []
@@ -25,7 +33,8 @@ def make_env(cfg):
         ext.append("jinja2.ext.i18n")
     if cfg.get("loopcontrols"):
         ext.append("jinja2.ext.loopcontrols")
-    return cls(enable_async=bool(cfg.get("async")), extensions=ext, autoescape=bool(cfg.get("autoescape")))
+    return cls(enable_async=bool(cfg.get("async")), extensions=ext, autoescape=bool(cfg.get("autoescape")),
+               finalize=_finalize if cfg.get("finalize") else None)
 
 
 def main():
